@@ -283,7 +283,21 @@ def monitor_trace(t, P):
     is_h2 = t.get('kind') == 'h2'   # task level: the label's task is not the one that makes the calls
     at_call = {}          # task -> (oid, name of the step whose outcome it is waiting for)
     failed_step = {}      # oid -> name of the verification step that failed (C04)
+    expect_res = {}       # task -> (result code, why, name) after a failing create / post_create hook
     for i, (l, d) in enumerate(zip(t['labels'], P)):
+        # C04 error table: a failing create answers Backend, a failing post_create hook PostCreateHook
+        if l[0] == 2 and l[2] == 1 and not is_h2 and i > 0 and l[1] < len(P[i - 1]['tasks']):
+            gate = P[i - 1]['tasks'][l[1]]
+            if gate == 50:
+                expect_res[l[1]] = (104, 'Manager::create failed', 'Backend')
+            elif 60 <= gate < 70:
+                expect_res[l[1]] = (105, 'post_create hook %d failed' % (gate - 60), 'PostCreateHook')
+        for tt, (want, why, wname) in list(expect_res.items()):
+            if tt < len(d['tasks']) and d['tasks'][tt] >= 100:
+                got = d['tasks'][tt]
+                if got not in (want, 108, 109):
+                    fail('C04', i, 'get of task %d: %s, it answered code %d, expected %s' % (tt, why, got - 100, wname))
+                del expect_res[tt]
         if l[0] == 2 and l[1] in at_call:
             # the manager / hook answers: a failure or a panic ends the verification of this object
             oid_c, name_c = at_call.pop(l[1])
@@ -383,6 +397,13 @@ def monitor_trace(t, P):
                     fail('C13', i, 'retain() saw metrics %s of %d, Object::metrics last reported %s' % ((e[2], e[3]), oid, last_metrics[oid]))
                 if oid in tr.held:
                     fail('C09', i, 'retain() was shown checked-out object %d' % oid)
+            elif k == 8:
+                # RetainResult: retained = the idle objects still in the pool, removed = the ones handed over
+                # (the Removed events of this step)
+                nrem = sum(1 for e2 in d['events'] if e2[0] == 9)
+                if e[1] != len(d['idle']) or e[2] != nrem:
+                    fail('C09', i, 'retain() reported retained %d / removed %d; %d idle objects stayed, %d were handed over'
+                         % (e[1], e[2], len(d['idle']), nrem))
             elif k == 12:
                 fail('C13', i, 'metrics anomaly %s on object %d' % (e[2], e[1]))
             elif k == 10:
@@ -408,6 +429,17 @@ def monitor_trace(t, P):
                         if ab:
                             fail('C03', i, 'after the get() abandoned at step %d status() at rest reports %s, the '
                                            'ground truth is %s' % (ab[-1], (mx, sz, av, wt), exp))
+        # C07: the step in which resize(n) commits (the locked region, one step) leaves max_size = n and no
+        # idle object in excess of n: either size <= n or nothing idle is left to release
+        if l[0] == 1 and not is_h2 and ops.get(l[1], [0, 0, -1])[2] == 3 and l[1] < len(d['tasks']) \
+                and d['tasks'][l[1]] == 110 and i > 0 and l[1] < len(P[i - 1]['tasks']) and P[i - 1]['tasks'][l[1]] == 80 \
+                and d['alive'] and not P[i - 1]['closed']:
+            n = ops[l[1]][3]
+            if d['max'] != n:
+                fail('C07', i, 'resize(%d) returned with max_size %d' % (n, d['max']))
+            if d['size'] > d['max'] and d['idle']:
+                fail('C07', i, 'resize(%d) returned with size %d and idle objects %s kept' % (
+                    n, d['size'], [o[0] for o in d['idle']]))
         if d['alive']:
             # counters never wrap
             for name in ('permits', 'size', 'max', 'users', 'debt'):
@@ -563,6 +595,14 @@ def analyze(traces, mobs_all):
             harness_errs.append((ti, t['err']))
         if t.get('want_labels') is not None and len(t['labels']) != len(t['want_labels']):
             harness_errs.append((ti, 'corpus trace %s stops after %d of %d labels' % (t.get('name'), len(t['labels']), len(t['want_labels']))))
+        if t.get('want_labels') is not None and t['obs']:
+            # a regression trace must still run its operations to the end: after a change of the schedule points
+            # an old label sequence can silently stop short of the situation it was recorded for
+            last = mobs.parse_obs(t['obs'][-1])['tasks']
+            stuck = [j for j, c in enumerate(last) if c < 100 and c not in (3, 4)]
+            if stuck:
+                harness_errs.append((ti, 'corpus trace %s is stale: task(s) %s are left in the middle of an operation '
+                                         '(codes %s)' % (t.get('name'), stuck, [last[j] for j in stuck])))
         P = [mobs.parse_obs(o) for o in t['obs']]
         M = None if mo is None else [mobs.parse_obs(o) if o is not None else None for o in mo]
         h = corr.trace_hash(t)
